@@ -704,10 +704,11 @@ impl Gen {
                     &disp_owner,
                     DISPATCHER,
                     &basset_sei_rewards_dispatcher::msg::ExecuteMsg::UpdateConfig {
-                        hub_contract: if chaos && self.rng.chance(1, 3) { Some(HUB.into()) } else { None },
-                        bsei_reward_contract: if chaos && self.rng.chance(1, 3) { Some(REWARD.into()) } else { None },
+                        // chaos: the wiring fields also take other values (re-pointing the dispatcher)
+                        hub_contract: if chaos && self.rng.chance(1, 3) { Some(self.rng.pick(&[HUB, HUB, "hub2"]).to_string()) } else { None },
+                        bsei_reward_contract: if chaos && self.rng.chance(1, 3) { Some(self.rng.pick(&[REWARD, REWARD, "reward2"]).to_string()) } else { None },
                         stsei_reward_denom: if chaos && self.rng.chance(1, 5) { Some(DENOM.into()) } else { None },
-                        bsei_reward_denom: if chaos && self.rng.chance(1, 3) { Some(REWARD_DENOM.into()) } else { None },
+                        bsei_reward_denom: if chaos && self.rng.chance(1, 3) { Some(self.rng.pick(&[REWARD_DENOM, REWARD_DENOM, "uother"]).to_string()) } else { None },
                         krp_keeper_address: ka,
                         krp_keeper_rate: rate,
                     },
